@@ -426,6 +426,10 @@ def run_own_state(case):
             self.announced.append([sender, subject])
             return True
 
+        def __len__(self):
+            # (a communicator that can say how many subscribers it has -- none here, so it is falsy; it is there all the same)
+            return 0 if case['gap'] == 1 else 1
+
     V = judges.V
     viol = []
     obs = {'own_state_runs': 1, 'own_state_transitions': 0}
